@@ -51,6 +51,12 @@ func (l *Lexer) Next() Token {
 func (l *Lexer) scanLineStart() Token {
 	l.atStart = false
 
+	// an empty line with a CRLF line end
+	if l.atCRLF() {
+		l.advance()
+		return l.scanNewline()
+	}
+
 	if l.peek() == ';' {
 		return l.scanComment()
 	}
